@@ -63,10 +63,11 @@ func addCommon(b *asm.B, ms *[]asm.MethodSpec) {
 // ---- hop / leaf / safe probe --------------------------------------------------------------------------
 
 // Leaf actions. What each one needs is written in needs() (chains.go) from the documentation of the flags.
-var leafActions = []string{"nothing", "put", "lput", "del", "ldel", "notify", "call", "xfer"}
+var leafActions = []string{"nothing", "flags", "put", "lput", "del", "ldel", "notify", "call", "xfer"}
 
-// leafMethod names the ABI method of a leaf: a_<action> (plain), t_<action> (action inside TRY, exception swallowed),
-// s_/st_ the same bodies declared safe in the manifest.
+// leafMethod names the ABI method of a leaf: a_<action> (plain), t_<action> (action inside a TRY block whose CATCH
+// returns 2; a missing call flag is not a catchable exception in this VM, so 2 is never expected), sa_/st_ the same
+// bodies declared safe in the manifest. Leaves return 1, except "flags" which returns System.Contract.GetCallFlags.
 func leafMethod(action string, try, safe bool) string {
 	p := "a"
 	if try {
@@ -81,7 +82,7 @@ func leafMethod(action string, try, safe bool) string {
 // emitAction emits the body of one leaf action (stack neutral).
 func emitAction(b *asm.B, action string) {
 	switch action {
-	case "nothing":
+	case "nothing", "flags":
 	case "put":
 		b.Str("v").Str("c").Syscall("System.Storage.GetContext").Syscall("System.Storage.Put")
 	case "lput":
@@ -133,6 +134,10 @@ func buildHopProbe(name string) *asm.Contract {
 				b.Label(l)
 				ms = append(ms, asm.MethodSpec{Name: l, Label: l, Params: 1, Safe: safe})
 				b.InitSlot(0, 1)
+				if a == "flags" {
+					b.Syscall("System.Contract.GetCallFlags").Op(opcode.RET)
+					continue
+				}
 				if !try {
 					emitAction(b, a)
 					b.Op(opcode.PUSH1, opcode.RET)
@@ -144,7 +149,7 @@ func buildHopProbe(name string) *asm.Contract {
 				b.Jmp(opcode.ENDTRYL, e)
 				b.Label(c).Op(opcode.DROP).Jmp(opcode.ENDTRYL, e+"c")
 				b.Label(e).Op(opcode.PUSH1, opcode.RET)
-				b.Label(e + "c").Op(opcode.PUSH2, opcode.RET)
+				b.Label(e+"c").Op(opcode.PUSH2, opcode.RET)
 			}
 		}
 	}
